@@ -73,13 +73,16 @@ TraceReach == /\ IsEvent("Reach")
                           /\ e.chan = "logic.ServerManager.exitChan" => fs \subseteq SmexitReach)
 TraceUnguarded == IsEvent("Unguarded") /\ Check(~Guarded(Trace[l]))
 TraceLeak == IsEvent("Leak") /\ Check(FALSE)
+\* the locks of the design are exclusive (Locks.tla has no shared mode): a function that holds a mutex in read mode and
+\* writes to the struct the mutex guards - itself or through what it calls - is outside it
+TraceRWrite == IsEvent("RWrite") /\ Check(FALSE)
 TraceSummary == IsEvent("Summary")
 TraceStress == /\ IsEvent("Stress")
                /\ LET e == Trace[l] IN Check(e.died = FALSE /\ e.hung = FALSE /\ e.calls > 0)
 TraceRace == IsEvent("Race")
 
 TraceNext == TraceReset \/ TraceMutex \/ TraceEdge \/ TraceSendUnder \/ TraceSend \/ TraceClose \/ TraceReach
-             \/ TraceUnguarded \/ TraceLeak \/ TraceSummary \/ TraceStress \/ TraceRace
+             \/ TraceUnguarded \/ TraceLeak \/ TraceRWrite \/ TraceSummary \/ TraceStress \/ TraceRace
 TraceSpec == TraceInit /\ [][TraceNext /\ UNCHANGED vars]_<<l, vars>>
 HighWater == TLCSet(1, IF l > TLCGet(1) THEN l ELSE TLCGet(1))
 Accept == PrintT("@HW@" \o ToString(TLCGet(1)))
